@@ -23,28 +23,43 @@ func Map(x any, f func(a any) any) any {
 			for i := 0; i < v.Elem().NumField(); i++ {
 				a := v.Elem().Field(i).Interface()
 				b := f(a)
-				r.Elem().Field(i).Set(reflect.ValueOf(b))
+				r.Elem().Field(i).Set(valueOf(b, r.Elem().Field(i).Type()))
 			}
 			return r.Interface()
 		}
 	case reflect.Slice:
+		if v.IsNil() {
+			return x
+		}
 		r := reflect.MakeSlice(v.Type(), v.Len(), v.Len())
 		for i := 0; i < v.Len(); i++ {
 			a := v.Index(i).Interface()
 			b := f(a)
-			r.Index(i).Set(reflect.ValueOf(b))
+			r.Index(i).Set(valueOf(b, v.Type().Elem()))
 		}
 		return r.Interface()
 	case reflect.Map:
+		if v.IsNil() {
+			return x
+		}
 		r := reflect.MakeMap(v.Type())
 		for _, k := range v.MapKeys() {
 			a := v.MapIndex(k).Interface()
 			b := f(a)
-			r.SetMapIndex(k, reflect.ValueOf(b))
+			r.SetMapIndex(k, valueOf(b, v.Type().Elem()))
 		}
 		return r.Interface()
 	}
 	return x
+}
+
+// valueOf is reflect.ValueOf, except that an untyped nil becomes the zero value of the given type,
+// so that a nil element of an interface-typed field, slice or map can be stored back.
+func valueOf(b any, typ reflect.Type) reflect.Value {
+	if b == nil {
+		return reflect.Zero(typ)
+	}
+	return reflect.ValueOf(b)
 }
 
 // Any returns true if the predicate is true for any of the elements in the slice of fields of a struct.
